@@ -17,6 +17,7 @@ package main
 // Only if the threads do not finish in free mode either is a deadlock reported.
 
 import (
+	"runtime"
 	"sync"
 	"sync/atomic"
 	"time"
@@ -213,12 +214,15 @@ func (s *Sched) RunThreads(ids []int, progs [][]Call, choose Chooser, emit func(
 	}
 	// wait for the next report of the running thread, or time out
 	recv := func() (rep, bool) {
-		select {
-		case r := <-s.reports:
-			return r, true
-		case <-time.After(s.StepTO):
-			return rep{}, false
+		for i := 0; i < 300; i++ { // the report is almost always there within microseconds: no timer for that
+			select {
+			case r := <-s.reports:
+				return r, true
+			default:
+				runtime.Gosched()
+			}
 		}
+		return patientRecv(s.reports, s.StepTO)
 	}
 	free := func(running *thr) {
 		// relay mode: resume everything, then resume whoever reports
@@ -243,7 +247,7 @@ func (s *Sched) RunThreads(ids []int, progs [][]Call, choose Chooser, emit func(
 				}
 			}
 		}
-		deadline := time.After(s.FreeTO)
+		deadline := patientAfter(s.FreeTO)
 		live := 0
 		for _, t := range ths {
 			if !t.done {
@@ -386,9 +390,7 @@ func (s *Sched) RunThreads(ids []int, progs [][]Call, choose Chooser, emit func(
 	if !info.Deadlock {
 		done := make(chan struct{})
 		go func() { wg.Wait(); close(done) }()
-		select {
-		case <-done:
-		case <-time.After(s.FreeTO):
+		if _, ok := patientRecv(done, s.FreeTO); !ok {
 			info.Deadlock = true
 		}
 	}
